@@ -44,8 +44,11 @@ theorem C16_headline_lower_ascii (o : Oracles) (h : Str) (v : Bool) (r : Str)
     -- the IDNA oracle answers: proved lower-case ASCII reg-name text UNDER the assumption that the answer is sane
     -- (`C16_headline_idn_lower_ascii`, C16HeadlineMore.lean), false for a hostile package
     -- (`C16_headline_lower_ascii_fails_for_hostile_idna`, ibid.; GAPS 1)
-    (hav : isAscii h = true ∨ v = true) : encodeHost o h v = .ok r → isLowerAscii r :=
-  C16_result_lower_ascii o h v r h37 hav
+    (hav : isAscii h = true ∨ v = true)
+    -- since fix 3fbf5b4 an IDNA answer that spells an IP literal is canonicalised as one, ITS zone id copied verbatim:
+    -- "no zone id" has to be asked of the IDNA answer of a non-ASCII host as well (a reg-name answer has none)
+    (h37a : isAscii h = false → ∀ a, idnaEncode o h = .ok a → 37 ∉ a) : encodeHost o h v = .ok r → isLowerAscii r :=
+  C16_result_lower_ascii o h v r h37 h37a hav
 
 /-- … with validation on the result is ASCII for ANY input, zone included -/
 theorem C16_headline_validated_ascii (o : Oracles) (h r : Str) :
@@ -57,7 +60,11 @@ theorem C16_headline_validated_ascii (o : Oracles) (h r : Str) :
 theorem C16_headline_regname (o : Oracles) (h : Str) (r : Str)
     (hip : parseIP (partition 37 h).1 = none) :      -- not an IP literal
     (isAscii h = true → ∀ v, encodeHost o h v = .ok r → r = lower h ∧ isLowerAscii r) ∧
-    (isAscii h = false → encodeHost o h true = .ok r → idnaEncode o h = .ok r ∧ notRegName r = false) :=
+    -- since fix 3fbf5b4: an IDNA answer `a` holding a ':' is not returned as such; it is accepted only as an IP literal
+    -- (result = its canonical text `ipRes a`, zone screened).  Every reg-name answer takes the first alternative.
+    (isAscii h = false → encodeHost o h true = .ok r → ∃ a, idnaEncode o h = .ok a ∧
+      ((mem 58 a = false ∧ r = a ∧ notRegName r = false) ∨
+       (mem 58 a = true ∧ ipRes a = some r ∧ zoneBad a true = false))) :=
   ⟨fun ha v => C16_ascii_regname o h v r ha hip, fun hna => C16_idna_validated o h r hna hip⟩
 
 /-- "IPv4 literals are kept" (the parser rejects leading zeros, so the canonical text is the input) -/
@@ -144,7 +151,9 @@ theorem C16_headline_validation (e : Env) :
       build e a = .ok u → ∃ eh, encodeHost e.o a.host true = .ok eh) ∧
     (∀ (u u' : Url) (h : Str), withHost e u h = .ok u' → ∃ eh, encodeHost e.o h true = .ok eh) ∧
     (∀ (h r : Str), encodeHost e.o h true = .ok r →
-      (∃ ip, parseIP (partition 37 h).1 = some ip) ∨ notRegName r = false) ∧
+      (∃ ip, parseIP (partition 37 h).1 = some ip) ∨ notRegName r = false ∨
+      -- since fix 3fbf5b4: … or the IDNA answer of a non-ASCII host is an IP literal (canonicalised as one)
+      (isAscii h = false ∧ ∃ a ip, idnaEncode e.o h = .ok a ∧ parseIP (partition 37 a).1 = some ip)) ∧
     (∀ s, notRegName s = false → ∀ c ∈ s, c = 37 ∨ mem c Gen.regNameChars = true) ∧
     (∀ c, mem c Gen.regNameChars = true ↔
       (c < 128 ∧ (Rfc.unreserved c = true ∨ Rfc.subDelims c = true) ∧ ¬(65 ≤ c ∧ c ≤ 90))) ∧
@@ -157,7 +166,9 @@ theorem C16_headline_validation (e : Env) :
     '@' '/' '?' '#' ' ' occurs, and ':' '[' ']' occur only for an IP literal -/
 theorem C16_headline_never_injects (o : Oracles) (h r : Str) (he : encodeHost o h true = .ok r) :
     64 ∉ r ∧ 47 ∉ r ∧ 63 ∉ r ∧ 35 ∉ r ∧ 32 ∉ r ∧
-    ((∃ c ∈ r, c = 58 ∨ c = 91 ∨ c = 93) → ∃ ip, parseIP (partition 37 h).1 = some ip) :=
+    ((∃ c ∈ r, c = 58 ∨ c = 91 ∨ c = 93) → (∃ ip, parseIP (partition 37 h).1 = some ip) ∨
+      -- since fix 3fbf5b4: … or the IDNA answer of a non-ASCII host is an IP literal
+      (isAscii h = false ∧ ∃ a ip, idnaEncode o h = .ok a ∧ parseIP (partition 37 a).1 = some ip)) :=
   let a := C16_validated_never_injects o h r he; let b := C16_validated_chars o h r he
   ⟨a.1, a.2.1, a.2.2.1, a.2.2.2, b.1, b.2⟩
 
